@@ -34,6 +34,11 @@ def gen_case(ctx, g):
             e = g.any_expr(cx, 1)
         asg.append((idx, e))
     where = g.bool_expr(cx, 1) if r.random() < 0.5 else None
+    if join is not None and r.random() < 0.4:
+        # a WHERE whose top-level operator binds looser than `and` (the template combines it with the has-partner test)
+        where = (r.choice(['or', 'or', 'cond']), g.bool_expr(cx, 0), g.bool_expr(cx, 0)) if r.random() < 0.8 else where
+        if where and where[0] == 'cond':
+            where = ('cond', g.bool_expr(cx, 0), g.bool_expr(cx, 0), g.bool_expr(cx, 0))
     qa = {'kind': ('update', asg), 'where': where, 'join': join, 'update_set': r.random() < 0.5}
     return ec.make_case(r, qa, A, B, also_table=True)
 
